@@ -64,8 +64,14 @@ def strat_ops(draw, tier, faults):
             ["write", "read", "write", "read", "conn_write", "conn_read",
              "fill", "struct_read", "struct_write", "vcpu_read", "vcpu_write",
              "link_read", "link_write"]))
+        if draw(st.integers(0, 11)) == 0:
+            # a documented failure (unaligned link access) in the middle of
+            # the history; later operations must be unaffected
+            ops.append({"op": "bad_link", "chip": [0, 0], "p": 0})
         op = {"op": kind, "chip": draw(st.sampled_from(chips)),
-              "p": draw(st.sampled_from([0, 0, 1, 5, 17]))}
+              "p": draw(st.sampled_from([0, 0, 1, 5, 17])),
+              "style": draw(st.sampled_from(["explicit", "explicit",
+                                             "context"]))}
         addr = BASE + draw(st.one_of(st.integers(0, 9),
                                      st.integers(0, scamp.PAGE + 40)))
         if kind in ("write", "conn_write"):
@@ -160,6 +166,31 @@ def check_ops(case):
             kind = op["op"]
             chip = _chip(m, op)
             x, y = op["chip"]
+            if kind == "bad_link":
+                try:
+                    with sut("read_across_link", (ValueError,)):
+                        mc.read_across_link(BASE + 1, 4, 0, 0, 0)
+                    raise Violation("an unaligned link read is not rejected",
+                                    {})
+                except ValueError:
+                    continue
+            ctx = op.get("style") == "context" and kind in (
+                "write", "read", "fill", "struct_read", "struct_write",
+                "vcpu_read", "vcpu_write", "link_read", "link_write")
+            if ctx:
+                # chip (and core) come from an enclosing context block
+                core = op["core"] if kind.startswith("vcpu") else op["p"]
+                block = mc(x=x, y=y, p=core) if not kind.startswith("link") \
+                    else mc(x=x, y=y)
+                block.__enter__()
+                XY = ()
+                XYP = ()
+                XYC = ()
+            else:
+                block = None
+                XY = (x, y)
+                XYP = (x, y, op["p"])
+                XYC = (x, y, op.get("core", 0))
             snaps = dict((xy, c.mem.snapshot()) for xy, c in m.chips.items())
             lo = hi = 0
             what = kind
@@ -169,7 +200,7 @@ def check_ops(case):
                         data = base64.b64decode(op["data"])
                         lo, hi = op["addr"], op["addr"] + len(data)
                         if kind == "write":
-                            mc.write(op["addr"], data, x, y, op["p"])
+                            mc.write(op["addr"], data, *XYP)
                         else:
                             mc.connections[None].write(
                                 mc.scp_data_length, op["window"], x, y,
@@ -185,7 +216,7 @@ def check_ops(case):
                         n = op["n"]
                         want = chip.mem.read(op["addr"], n)
                         if kind == "read":
-                            got = mc.read(op["addr"], n, x, y, op["p"])
+                            got = mc.read(op["addr"], n, *XYP)
                         else:
                             got = mc.connections[None].read(
                                 mc.scp_data_length, op["window"], x, y,
@@ -199,8 +230,7 @@ def check_ops(case):
                             bool(op["addr"] % 4) or bool(n % 4)
                     elif kind == "fill":
                         lo, hi = op["addr"], op["addr"] + op["n"]
-                        mc.fill(op["addr"], op["value"], op["n"], x, y,
-                                op["p"])
+                        mc.fill(op["addr"], op["value"], op["n"], *XYP)
                         # documented: word fill iff address and size are
                         # both word aligned, byte fill otherwise
                         if op["addr"] % 4 == 0 and op["n"] % 4 == 0:
@@ -219,8 +249,8 @@ def check_ops(case):
                         addr = structs["sv"].base + f.offset
                         if kind == "struct_read":
                             want = f.unpack(chip.mem.read(addr, f.size))
-                            got = mc.read_struct_field("sv", op["field"], x,
-                                                       y, op["p"])
+                            got = mc.read_struct_field("sv", op["field"],
+                                                       *XYP)
                             require(got == want, "read_struct_field does not "
                                     "return the field's stored value",
                                     {"field": op["field"], "got": repr(got),
@@ -232,8 +262,7 @@ def check_ops(case):
                             lo, hi = addr, addr + f.size
                             mc.write_struct_field(
                                 "sv", op["field"],
-                                vals[0] if f.count == 1 else vals, x, y,
-                                op["p"])
+                                vals[0] if f.count == 1 else vals, *XYP)
                             want = b"".join(f.pack(v) for v in vals)
                             got = chip.mem.read(addr, f.size)
                             require(got == want, "write_struct_field did not "
@@ -255,8 +284,8 @@ def check_ops(case):
                             continue      # multi-word pad field: not readable
                         if kind == "vcpu_read":
                             raw = chip.mem.read(addr, f.size)
-                            got = mc.read_vcpu_struct_field(op["field"], x, y,
-                                                            op["core"])
+                            got = mc.read_vcpu_struct_field(op["field"],
+                                                            *XYC)
                             if f.perl.startswith("A"):
                                 want = raw.strip(b"\0").decode("utf-8",
                                                                "replace")
@@ -275,8 +304,8 @@ def check_ops(case):
                                 val = op["value"] & \
                                     ((1 << (8 * f.elem_size)) - 1)
                                 want = f.pack(val)
-                            mc.write_vcpu_struct_field(op["field"], val, x, y,
-                                                       op["core"])
+                            mc.write_vcpu_struct_field(op["field"], val,
+                                                       *XYC)
                             got = chip.mem.read(addr, f.size)
                             require(got == want, "write_vcpu_struct_field "
                                     "did not store the value in the core's "
@@ -291,8 +320,12 @@ def check_ops(case):
                                           [1]) % 2)]
                         if kind == "link_read":
                             want = other.mem.read(op["addr"], op["n"])
-                            got = mc.read_across_link(op["addr"], op["n"], x,
-                                                      y, op["link"])
+                            if ctx:
+                                got = mc.read_across_link(
+                                    op["addr"], op["n"], link=op["link"])
+                            else:
+                                got = mc.read_across_link(
+                                    op["addr"], op["n"], x, y, op["link"])
                             require(bytes(got) == want, "read_across_link "
                                     "did not return the neighbour's bytes",
                                     {"address": hex(op["addr"]),
@@ -300,8 +333,12 @@ def check_ops(case):
                         else:
                             data = base64.b64decode(op["data"])
                             lo, hi = op["addr"], op["addr"] + len(data)
-                            mc.write_across_link(op["addr"], data, x, y,
-                                                 op["link"])
+                            if ctx:
+                                mc.write_across_link(op["addr"], data,
+                                                     link=op["link"])
+                            else:
+                                mc.write_across_link(op["addr"], data, x, y,
+                                                     op["link"])
                             got = other.mem.read(lo, len(data))
                             require(got == data, "write_across_link did not "
                                     "leave the bytes on the neighbour",
@@ -317,6 +354,8 @@ def check_ops(case):
                 _expect_only(m, snaps, chip, lo, hi, what)
                 break
             finally:
+                if block is not None:
+                    block.__exit__(None, None, None)
                 if m.violations:
                     msg, det = m.violations[0]
                     raise Violation("%s: malformed command: %s" % (kind, msg),
